@@ -253,7 +253,20 @@ func c04Key(name string) string {
 	if c04IntKeys {
 		return verifConcreteStr(verifPick(name, "5", "0x1F", "0o17", "1_0", "-3"))
 	}
+	if c04EmptyKeys {
+		return verifConcreteStr(verifPick(name, "", "a"))
+	}
 	return verifStrN(name, 1, c04KeyRange)
+}
+
+// c04EmptyKeys: keys are drawn from {"", "a"}: the empty string is a key like any other
+var c04EmptyKeys bool
+
+// VerifC04MergeEmptyKeys: one entry per side, possibly a nested map or a sequence, keys from {"", a} at both levels.
+func VerifC04MergeEmptyKeys() {
+	c04EmptyKeys = true
+	c04MergeBody(1, 1)
+	c04EmptyKeys = false
 }
 
 func c04KeyTag() string {
@@ -309,7 +322,7 @@ func c04MergeBody(entries, depth int) {
 	}
 	label := "flags=" + fl
 	for _, k := range b.keys {
-		if !c04IntKeys && verifConcreteBool(k[0] == '*' || k[0] == '?') {
+		if !c04IntKeys && !c04EmptyKeys && verifConcreteBool(k[0] == '*' || k[0] == '?') {
 			label += " right-key-has-glob-character"
 			break
 		}
